@@ -17,6 +17,7 @@ RULE = (
     'non-trivial iff the fantasy posterior differs from the source posterior by > 1e-3'
     '; pass 5: sources beyond max_cholesky_size (iterative solves, rank-8 Lanczos roots); sibling fantasies of one source examined after one another (cached, deep copy, recomputed, own fantasy, stored noise)'
     '; pass 6: refused get_fantasy_model calls leave the source untouched; fantasies of two-input exact GPs; rank>0 multitask noise; iterative cells tighten eval_cg_tolerance only'
+    "; pass 7: m == stored-size cells, requires_grad / training flags in the source snapshot; the SOURCE trains on after its children exist (children that predicted before and children that had not) - each child stays the exact GP of its own hyper-parameters"
 )
 REQUIRED = ["fantasy_mean", "fantasy_covar", "fantasy_mean_cache", "fantasy_root_decomposition", "fantasy_root_inv_decomposition", "source_untouched", "monitor:get_fantasy_strategy"]
 ASSUMPTIONS = ["noise of the concatenated data is assembled from public parameters (sigma^2; stored fixed noise followed by the call-time fantasy noise [+ learned sigma^2])"]
@@ -454,6 +455,22 @@ def _as_function(case, ctx, g):
         if fixed is not None:
             ctx.close("fantasy_siblings", elder.likelihood.noise_covar.noise, torch.cat([fixed, na], -1), "bit", cls="siblings:elder:noise")
             ctx.close("fantasy_siblings", younger.likelihood.noise_covar.noise, torch.cat([fixed, nc], -1), "bit", cls="siblings:younger:noise")
+        # ... and the other way round: the SOURCE trains on after its children exist (train(), other hyper-parameters, eval()):
+        # a child - whether it has predicted before or not - stays the exact GP of ITS hyper-parameters on its data
+        (Xe, ye, ne), (Xf, yf_, nf) = mk(), mk()
+        seen = model.get_fantasy_model(Xe, ye, **({"noise": ne} if ne is not None else {}))
+        unseen = model.get_fantasy_model(Xf, yf_, **({"noise": nf} if nf is not None else {}))
+        re_, rf_ = scratch(Xe, ye, ne), scratch(Xf, yf_, nf)
+        seen(xs)
+        model.train()
+        for p_ in list({id(q): q for q in list(model.parameters()) + list(model.likelihood.parameters())}.values()):
+            p_.add_(0.6 * util.randn(g, *p_.shape))
+        model.eval()
+        model(xs)
+        for tag, fm_, r_ in (("predicted_before", seen, re_), ("first_prediction_after", unseen, rf_)):
+            o_ = fm_(xs)
+            ctx.close("fantasy_siblings", o_.mean, r_.mean, (1e-7, 1e-7), cls="source_moved:" + tag + ":mean")
+            ctx.close("fantasy_siblings", o_.covariance_matrix, r_.covariance_matrix, ctol, cls="source_moved:" + tag + ":covar")
     ctx.cell({k: v for k, v in case.items() if k != "seed"})
 
 
